@@ -5,6 +5,8 @@ import (
 	"go/types"
 	"strconv"
 	"strings"
+
+	"golang.org/x/tools/go/ssa"
 )
 
 // TV is a typed value in the contract language.
@@ -726,6 +728,54 @@ func (env *Env) evalCall(n *ECall) TV {
 			return TV{T: t, Typ: types.Typ[types.Bool]}
 		}
 		return TV{T: False, Typ: types.Typ[types.Bool]}
+	case "lastarg":
+		// lastarg("callee", i): argument i (receiver = 0 for methods) of the latest call to callee on this path
+		sx, ok := n.Args[0].(*EStr)
+		ix, ok2 := n.Args[1].(*EInt)
+		if !ok || !ok2 {
+			evalFail("lastarg: callee name and argument index expected")
+		}
+		pre := "larg|" + sx.V + "|" + ix.V + "|"
+		for k, t := range env.state.heap {
+			if strings.HasPrefix(k, pre) {
+				return TV{T: t, Typ: e.lastArgTyp[sx.V+"|"+ix.V]}
+			}
+		}
+		for k, t := range e.heap0 {
+			if strings.HasPrefix(k, pre) {
+				return TV{T: t, Typ: e.lastArgTyp[sx.V+"|"+ix.V]}
+			}
+		}
+		// no call yet on this path: arbitrary (sort from the callee's signature)
+		for _, b := range e.fn.Blocks {
+			for _, in := range b.Instrs {
+				ci, ok := in.(ssa.CallInstruction)
+				if !ok {
+					continue
+				}
+				nm, kind, _ := e.calleeName(ci.Common())
+				if kind == "builtin" || nm != sx.V {
+					continue
+				}
+				var args []ssa.Value
+				if ci.Common().IsInvoke() {
+					args = append(args, ci.Common().Value)
+				}
+				args = append(args, ci.Common().Args...)
+				idx, _ := strconv.Atoi(ix.V)
+				if idx < len(args) {
+					srt := e.sortOf(args[idx].Type())
+					t := e.fresh("larg0", srt)
+					e.heap0[pre+string(srt)] = t
+					if e.lastArgTyp == nil {
+						e.lastArgTyp = map[string]types.Type{}
+					}
+					e.lastArgTyp[sx.V+"|"+ix.V] = args[idx].Type()
+					return TV{T: t, Typ: args[idx].Type()}
+				}
+			}
+		}
+		evalFail("lastarg: no call to %s in this function", sx.V)
 	case "lastresult":
 		// lastresult("callee"): first result of the latest call to callee on this path
 		sx, ok := n.Args[0].(*EStr)
